@@ -285,9 +285,16 @@ def run_property(prop, tier, seed, strict=False, nproc=None):
     REPLAYS = os.environ.get("VF_REPLAY_DIR") or os.path.join(VERIF, "replays")
     os.makedirs(REPLAYS, exist_ok=True)
     known_hit = set()
-    for key in sorted(violations):
+    job_reruns = {}          # job name -> result of re-running it in a fresh process (shared by all keys that job found)
+    MAX_CONFIRM = 24         # a change that breaks everything yields hundreds of keys: the first 24 (known keys always) are re-executed
+    order = sorted(violations, key=lambda k: (k not in known, k))
+    skipped_keys = []
+    for key in order:
         v = violations[key]
         first = v["first"][0]
+        if key not in known and n_viol >= MAX_CONFIRM:
+            skipped_keys.append(key)
+            continue
         pool = _pool(first.get("curve"), modname, 1)
         try:
             conf = pool.apply(_worker_case, ((modname, first["kind"], first["case"]),))
@@ -301,12 +308,15 @@ def run_property(prop, tier, seed, strict=False, nproc=None):
         if key not in [k for k, _ in conf["viol"]]:
             # not reproduced from a fresh process image by the single case: the violation may depend on the history of
             # the job that found it (state leaking between calls). Re-run that whole job in a fresh process.
-            pool = _pool(first.get("curve"), modname, 1)
-            try:
-                rj = pool.apply(_worker_run, ((modname, first["job"]),))
-            finally:
-                pool.terminate()
-                pool.join()
+            jn = first["job"]["name"]
+            if jn not in job_reruns:
+                pool = _pool(first.get("curve"), modname, 1)
+                try:
+                    job_reruns[jn] = pool.apply(_worker_run, ((modname, first["job"]),))
+                finally:
+                    pool.terminate()
+                    pool.join()
+            rj = job_reruns[jn]
             if "harness_error" in rj or key not in rj.get("violations", {}):
                 print(f"HARNESS-ERROR property={prop} nondeterministic: key={key} not reproduced on "
                       f"re-execution of {json.dumps(first['case'], default=str)[:400]} (got {conf['viol']}) nor by re-running job "
@@ -330,6 +340,9 @@ def run_property(prop, tier, seed, strict=False, nproc=None):
         print(f"  key={key} cases={v['count']}{' [history-dependent: reproduced by re-running job ' + first['job']['name'] + ' from a fresh process, not by the single case]' if history_dependent else ''}: "
               f"{first['desc'][:600]}", flush=True)
         exit_code = 1
+    if skipped_keys:
+        print(f"  ({len(skipped_keys)} further finding keys were found by this run and not re-executed individually: "
+              f"{', '.join(skipped_keys[:12])}{' ...' if len(skipped_keys) > 12 else ''})", flush=True)
 
     # obligations
     unmet = [k for k, n in obligations.items() if n == 0 and k in getattr(mod, "OBLIGATIONS", {})
@@ -449,8 +462,8 @@ def run_seq_job(job, ops, run_case, depth=None):
     return acc.result()
 
 
-def concur_jobs(n, curve=None, weight=4):
-    return [{"name": f"concurrent/{i}", "part": "concurcase", "idx": i, "curve": curve, "weight": weight} for i in range(n)]
+def concur_jobs(n, curve=None, weight=4, deep=False):
+    return [{"name": f"concurrent/{i}", "part": "concurcase", "idx": i, "curve": curve, "weight": weight, **({"deep": True} if deep else {})} for i in range(n)]
 
 
 def run_concur_job(job, scens, run_case, prop, files):
@@ -464,9 +477,13 @@ def run_concur_job(job, scens, run_case, prop, files):
     # quick: <= 1 preemption, offered at the first 2 executions of a line.  thorough: two passes - <= 1 preemption at the first
     # 6 executions of a line, and <= 2 preemptions at the first execution of a line (capped at 40 000 executions, reported)
     passes = [(1, 2, 20_000)] if job["tier"] == "quick" else [(1, 6, 40_000), (2, 1, 40_000)]
+    if job.get("deep"):
+        # cheap scenarios (scaled-down curve): additionally <= 2 preemptions offered at the first 3 (quick) / 5 (thorough) executions
+        # of a line - a race that needs the second switch in the middle of the other thread's loop
+        passes = passes + [(2, 3, 30_000, True)] if job["tier"] == "quick" else passes + [(2, 5, 400_000, True)]
     n_exec = 0
-    for bound, hits, cap in passes:
-        ex = concur.explore_cases(acc, run_case, prop, scen, files, bound, max_hits=hits, max_exec=cap)
+    for bound, hits, cap, *vis in passes:
+        ex = concur.explore_cases(acc, run_case, prop, scen, files, bound, max_hits=hits, max_exec=cap, visible=bool(vis and vis[0]))
         n_exec += ex.executions
 
     class ex:       # noqa
@@ -476,6 +493,7 @@ def run_concur_job(job, scens, run_case, prop, files):
                 "preemption_bound": bound, "preemption_offered_at_first_n_executions_of_a_line": hits})
     acc.extra["preemption_bound"] = bound
     acc.extra["line_hit_bound"] = hits
+    acc.extra["passes"] = [list(p) for p in passes]
     return acc.result()
 
 
@@ -539,3 +557,77 @@ def _preimport_plain():
             importlib.import_module(m.name)
         except Exception:
             pass
+
+
+# ----------------------------------------------------------------------------- E7: concurrency at rare history positions
+def histconcur_jobs(curve=None, weight=6, n=1):
+    return [{"name": f"histconcur/{i}", "part": "histconcur", "idx": i, "nidx": n, "curve": curve, "weight": weight} for i in range(n)]
+
+
+def run_histconcur_job(job, ops, run_case, prop, files, max_marks=6):
+    """ops: a long homogeneous history.  Positions whose call executes library lines no earlier call executed (seqexplore.rare_points)
+    are the states from which two concurrent calls (the call at that position and the next one) are explored, every interleaving
+    with <= 1 preemption, followed by the same two calls sequentially."""
+    from vf import concur, seqexplore
+    acc = Acc(job)
+    _preimport_plain()
+    marks = seqexplore.rare_points(ops, run_case, files)
+    mine = [m for k, m in enumerate(marks) if k % job.get("nidx", 1) == job.get("idx", 0)]
+    if len(mine) > max_marks:
+        acc.caps.append(f"{job['name']}: {len(mine)} rare history positions, the last {max_marks} explored")
+        mine = mine[-max_marks:]
+    hits = 2 if job["tier"] == "quick" else 4
+    import pickle
+    for pos, lines in mine:
+        rd, wr = os.pipe()
+        pid = os.fork()
+        if pid == 0:
+            os.close(rd)
+            try:
+                sub = Acc(job)
+                for kind, case in ops[:pos]:
+                    seqexplore.apply(run_case, kind, case)
+                threads = [ops[pos], ops[(pos + 1) % len(ops)]]
+                scen = {"threads": threads, "post": threads}
+                calls, warm, judge, post = concur._case_setup(run_case, prop, scen)
+                hjob = {k: job[k] for k in ("name", "part", "idx", "nidx", "curve", "seed", "tier") if k in job}
+                case = {"hist_job": hjob, "upto": pos, "threads": [list(t) for t in threads], "post": [list(t) for t in threads]}
+                ex = concur.explore_calls(sub, calls, files, 1, judge, "histconcur", case, max_exec=20_000, max_hits=hits, post=post)
+                payload = {"res": sub.result(), "n": ex.executions}
+            except BaseException:
+                payload = {"error": traceback.format_exc()[-2000:]}
+            with os.fdopen(wr, "wb") as f:
+                pickle.dump(payload, f)
+            os._exit(0)
+        os.close(wr)
+        with os.fdopen(rd, "rb") as f:
+            data = pickle.loads(f.read())
+        os.waitpid(pid, 0)
+        if "error" in data:
+            raise RuntimeError("history-positioned concurrency: " + data["error"])
+        r = data["res"]
+        for k in ("evaluations", "nontrivial", "states", "transitions", "executions"):
+            setattr(acc, k, getattr(acc, k) + r[k])
+        acc.caps += r["caps"]
+        for key, v in r["violations"].items():
+            k2 = key if key.endswith("/at-history-position") else key + "/at-history-position"
+            w = acc.violations.setdefault(k2, {"count": 0, "first": []})
+            w["count"] += v["count"]
+            for f_ in v["first"]:
+                if len(w["first"]) < acc.MAX_VIOL_PER_KEY:
+                    f_["desc"] = f"after {pos} sequential calls (call {pos + 1} is the first to execute {', '.join(lines[:3])}): " + f_["desc"]
+                    w["first"].append(f_)
+        acc.ob("history_positioned_concurrency", data["n"])
+    acc.sample({"history_length": len(ops), "rare_positions": [m[0] for m in marks][:40], "explored_positions": [m[0] for m in mine],
+                "preemption_bound": 1, "line_hit_bound": hits})
+    acc.extra["rare_history_positions"] = len(marks)
+    return acc.result()
+
+
+def replay_histconcur(run_case, prop, case, files, hist_ops):
+    from vf import concur, seqexplore
+    ops = hist_ops(case["hist_job"])
+    for kind, c in ops[:case["upto"]]:
+        seqexplore.apply(run_case, kind, c)
+    out = concur.replay_cases(run_case, prop, case, files)
+    return [((k if k.endswith("/at-history-position") else k + "/at-history-position"), d) for k, d in out]
